@@ -52,33 +52,30 @@ def wBlock2 (s t : Shell K) (ws wt : Tab3 K) (blk : Tab4 K) : Tab4 K :=
     if t.sph then sumN t.ncart fun b => wt.get3 n g b * st1.get4 m f n b
     else wt.get3 n g g * st1.get4 m f n g
 
-/-- two-index array with `nextra` trailing entries per pair of basis functions, row-major
-`[r][c][e]`.  `blk s t` is the un-normalised Cartesian block(s) of shells `s` of `b1`, `t` of `b2`. -/
-def assemble2 (b1 b2 : Basis K) (nextra : Nat) (blk : Nat → Nat → Tab (Tab4 K)) : Array K := Id.run do
+def Basis.offset (b : Basis K) (i : Nat) : Nat := (b.toList.take i).foldl (fun n s => n + s.size) 0
+
+/-- normalised and transformed blocks of all shell pairs: `[i][j][e]` -/
+def pairBlocks (b1 b2 : Basis K) (nextra : Nat) (blk : Nat → Nat → Tab (Tab4 K)) : Tab (Tab (Tab (Tab4 K))) :=
   let w1 := tab b1.size fun i => match b1[i]? with | some s => s.weights | none => tab3 0 0 0 fun _ _ _ => Num.nat 0
   let w2 := tab b2.size fun i => match b2[i]? with | some s => s.weights | none => tab3 0 0 0 fun _ _ _ => Num.nat 0
-  let nr := b1.total
+  tab2 b1.size b2.size fun i j =>
+    let raw := blk i j
+    tab nextra fun e => wBlock2 (b1.getD i default) (b2.getD j default) (w1.get i) (w2.get j) (raw.get e)
+
+/-- entry `(r, c, e)` of a two-index array: row `r` is function `f` of segment `m` of shell `i`
+(`Basis.locate`), column `c` likewise in the second basis -/
+def entry2 (b1 b2 : Basis K) (pb : Tab (Tab (Tab (Tab4 K)))) (r c e : Nat) : K :=
+  let lr := b1.locate r
+  let lc := b2.locate c
+  ((pb.get2 lr.1 lc.1).get e).get4 lr.2.1 lr.2.2 lc.2.1 lc.2.2
+
+/-- two-index array with `nextra` trailing entries per pair of basis functions, row-major
+`[r][c][e]`.  `blk s t` is the un-normalised Cartesian block(s) of shells `s` of `b1`, `t` of `b2`. -/
+def assemble2 (b1 b2 : Basis K) (nextra : Nat) (blk : Nat → Nat → Tab (Tab4 K)) : Array K :=
+  let pb := pairBlocks b1 b2 nextra blk
   let nc := b2.total
-  let mut out : Array K := Array.replicate (nr * nc * nextra) (Num.nat 0)
-  let mut roff := 0
-  for hi : i in [0:b1.size] do
-    let s := b1[i]
-    let mut coff := 0
-    for hj : j in [0:b2.size] do
-      let t := b2[j]
-      let raw := blk i j
-      for e in [0:nextra] do
-        let wb := wBlock2 s t (w1.get i) (w2.get j) (raw.get e)
-        for m in [0:s.nseg] do
-          for f in [0:s.nfun] do
-            for n in [0:t.nseg] do
-              for g in [0:t.nfun] do
-                let r := roff + m * s.nfun + f
-                let c := coff + n * t.nfun + g
-                out := out.set! ((r * nc + c) * nextra + e) (wb.get4 m f n g)
-      coff := coff + t.size
-    roff := roff + s.size
-  return out
+  Array.ofFn (n := b1.total * nc * nextra) fun idx =>
+    entry2 b1 b2 pb (idx.val / (nc * nextra)) (idx.val / nextra % nc) (idx.val % nextra)
 
 /-- one-index array (`BaseOneIndex`): rows = basis functions, `nextra` columns.
 `blk s` gives `[m][a][e]`. -/
